@@ -3373,3 +3373,65 @@ def spans_union(r: R, chk, qual: str, rule="SPANS-UNION"):
                func=qual, construct="quadrature spans are not the union of both knot sets")
     chk.floor(rule, f"span-by-span integration loops in {qual}", n, 1)
     return n
+
+
+# ---------------------------------------------------------------------------------------------------------
+# LIMITS-RAW: the ends of the interval are elements of the vector, not survivors of the tolerance-based de-duplication
+def limits_raw(r: R, chk, qual: str = "heavy.ImmutableKnotVector.limits", rule="LIMITS-RAW"):
+    """`knots` merges values that are closer than the knot tolerance and keeps the first it meets: an interior knot within that
+    tolerance of umax makes umax itself disappear from `knots`.  `limits` decides validity of nodes, so it has to read the two
+    elements U[degree], U[npts] themselves."""
+    fi = r.prog.func(qual) if r.has(qual) else None
+    if fi is None:
+        cand = [f for f in r.prog.all_functions() if f.qual.endswith("ImmutableKnotVector.limits") or f.qual.endswith("ImmutableKnotVector.limits.getter")]
+        if not cand:
+            chk.floor(rule, "the limits property of ImmutableKnotVector", 0, 1)
+        fi = cand[0]
+    conts, elems, is_dd = dedup_taint(fi)
+    n = 0
+    for ret in ast.walk(fi.node):
+        if not (isinstance(ret, ast.Return) and ret.value is not None):
+            continue
+        n += 1
+        parts = ret.value.elts if isinstance(ret.value, (ast.Tuple, ast.List)) else [ret.value]
+        bad = [p for p in parts if any((isinstance(x, ast.Attribute) and x.attr == "knots") or (isinstance(x, ast.Name) and x.id in conts) or (isinstance(x, ast.Call) and seg(x.func).endswith("get_unique")) for x in ast.walk(p))]
+        ok = not bad
+        chk.ob(rule, f"{fi.qual}: `{seg(ret, 40)}` reads the ends from the elements of the vector", ok, loc=f"{fi.module}.py:{ret.lineno}",
+               detail="" if ok else f"{fi.qual}: `{seg(bad[0], 30)}` takes an end of the interval from the de-duplicated knots: a last interior knot within the knot tolerance (1e-6) of umax absorbs umax, `limits` then ends at that interior knot, umax itself is reported invalid and span / mult raise ValueError for a node inside the interval",
+               func=fi.qual, construct="limits taken from the de-duplicated knots")
+    chk.floor(rule, f"returns of {fi.qual}", n, 1)
+    return n
+
+
+# ---------------------------------------------------------------------------------------------------------
+# STEP-APPLIED: a Newton iterate is handed back only after the step that was computed for it has been applied
+def step_applied(r: R, chk, qual: str, rule="STEP-APPLIED"):
+    """`x -= d` with `d` computed in the same iteration.  A `return <x>` that can be reached from the computation of `d` without
+    passing the update hands back the iterate of BEFORE the last step: a start that is within the convergence threshold of the
+    solution is returned as it is, off by up to that threshold instead of correct to rounding."""
+    ctx = r.root(qual)
+    fi = ctx.fi
+    n = 0
+    for upd in r.stmt_nodes(ctx):
+        a = upd.ast
+        x = d = None
+        if isinstance(a, ast.AugAssign) and isinstance(a.op, ast.Sub) and isinstance(a.target, ast.Name) and isinstance(a.value, ast.Name):
+            x, d = a.target.id, a.value.id
+        elif isinstance(a, ast.Assign) and len(a.targets) == 1 and isinstance(a.targets[0], ast.Name) and isinstance(a.value, ast.BinOp) and isinstance(a.value.op, ast.Sub) and isinstance(a.value.left, ast.Name) and a.value.left.id == a.targets[0].id and isinstance(a.value.right, ast.Name):
+            x, d = a.targets[0].id, a.value.right.id
+        if x is None:
+            continue
+        steps = [s for s in r.stmt_nodes(ctx) if isinstance(s.ast, ast.Assign) and any(d in _target_names(t) for t in s.ast.targets)]
+        if not steps:
+            continue
+        rets = [s for s in r.stmt_nodes(ctx) if isinstance(s.ast, ast.Return) and s.ast.value is not None and any(isinstance(y, ast.Name) and y.id == x for y in ast.walk(s.ast.value))]
+        for st in steps:
+            n += 1
+            reach = ctx.cfg.reachable_from_succ(st.id, exc=False, avoid={upd.id, st.id})
+            early = [rt for rt in rets if rt.id in reach]
+            ok = not early
+            chk.ob(rule, f"{qual}: `{seg(st.ast, 40)}` is applied (`{seg(upd.ast, 30)}`) before `{x}` is returned", ok, loc=r.loc(ctx, (early[0] if early else upd).ast),
+                   detail="" if ok else f"{qual}: `{seg(early[0].ast, 40)}` can be reached from `{seg(st.ast, 40)}` without `{seg(upd.ast, 30)}`: the iterate of before the last Newton step is returned — a start within the convergence threshold of the crossing comes back unchanged, wrong by up to that threshold where the parameters have to be correct to rounding",
+                   func=qual, construct=f"iterate {x} returned before the computed step is applied")
+    chk.floor(rule, f"Newton steps in {qual}", n, 1)
+    return n
